@@ -53,6 +53,91 @@ def run(ck):
     from . import repr_range
     repr_range.run_rule(ck, prog, fields=("f62", "f64"))
     ck.control("an even number is not accepted as a proved prime", not numth.lucas_prime_proof(2**64 - 2**32 + 2))
+    arith_rule(ck, prog)
+
+
+# ---- carry / borrow logic of the linear operations (engine E5b) ---------------------------------------
+
+ARITH_OPS = (
+    # (trait, method, operands, expected residue as a linear form over a, b, P[a*b]; factor the result is multiplied with first)
+    ("core::ops::arith::Add", "add", 2, {"a": 1, "b": 1}, 1),
+    ("core::ops::arith::Sub", "sub", 2, {"a": 1, "b": -1}, 1),
+    ("core::ops::arith::Neg", "neg", 1, {"a": -1}, 1),
+    ("winter_math::field::traits::FieldElement", "double", 1, {"a": 2}, 1),
+)
+
+
+def arith_rule(ck, prog):
+    """For all operands inside the field's representation range, on every path (every carry / borrow case that the intervals admit),
+    the integer an operation stores is congruent modulo p to the sum / difference / negation / double of its operands; for the field
+    whose Montgomery reduction is a single multiply-add-shift (f62) also that 2^64 * mul(a, b) = a * b modulo p, which needs the low
+    word of z + (z*U mod 2^64)*M to vanish identically (M*U = -1 modulo 2^64). The reductions of f64 (mont_red_cst) and f128
+    (multi-limb) are not decided: the feasibility of one of their borrow cases depends on divisibility, which the domain does not see."""
+    from ..linint import LinInterp, Undecided, IV, lin_scale, show_lin
+    ck.rule("ARITH", "add/sub/neg/double (f62 also mul/square): the stored integer is congruent modulo p to the operation on the operands' "
+                     "integers, on every carry/borrow case, for all operands in the representation range (exact linear forms, engine E5b)")
+    n = 0
+    for fname, info in FIELDS.items():
+        mod = info["mod"]
+        be = f"{mod}::BaseElement"
+        p = cval(prog, f"{mod}::M")
+        H = 2 * p - 1 if info["lazy"] else p - 1
+        ops = list(ARITH_OPS)
+        if info["lazy"]:
+            ops += [("core::ops::arith::Mul", "mul", 2, {"P[a*b]": 1}, 2**64),
+                    ("winter_math::field::traits::FieldElement", "square", 1, {"P[a*a]": 1}, 2**64)]
+
+        def scope(c, mod=mod):
+            return c.kind != "closure" and (c.nname.startswith(mod + "::") or c.nname.startswith("<" + mod + "::"))
+        for trait, meth, nargs, want0, scale in ops:
+            try:
+                fn = prog.impl_method(be, trait, meth)
+            except AnchorError:
+                continue    # the field uses the trait's default body (decided through the operations it calls)
+            ck.saw(fn)
+            li = LinInterp(prog, p, scope)
+            names = ["a", "b"][:nargs]
+            for nm in names:
+                li.atom(nm, 0, H)
+            env0 = {i + 1: ("adt", 0, [IV({nm: 1}, 0, H)]) for i, nm in enumerate(names)}
+            key = f"{fname}:{meth}"
+            try:
+                outs = li.run(fn, env0)
+            except Undecided as e:
+                ck.note(f"ARITH {key}: not decided ({e})")
+                continue
+            for a_ in want0:
+                if a_.startswith("P[") and a_ not in li.atoms:
+                    li.atom(a_, 0, H * H)
+            want = li.canon(dict(want0))
+            bad, unknown = None, 0
+            for env, imprecise in outs:
+                r = env.get(0)
+                v = r[2][0] if isinstance(r, tuple) and r and r[0] == "adt" and r[2] else None
+                got = li.canon(lin_scale(v.lin, scale)) if isinstance(v, IV) and v.lin is not None else None
+                if got is None or imprecise:
+                    unknown += 1
+                elif got != want:
+                    bad = bad or (got, (v.lo, v.hi))
+            if not outs or (unknown and not bad):
+                ck.note(f"ARITH {key}: {unknown} of {len(outs)} paths left the linear domain; not decided")
+                continue
+            n += 1
+            for nn in li.inlined:
+                ck.analysed["functions"].add(nn)
+            what = {"add": "a + b", "sub": "a - b", "neg": "-a", "double": "2a", "mul": "a*b (after multiplying the result by 2^64)",
+                    "square": "a*a (after multiplying the result by 2^64)"}[meth]
+            ck.ob("ARITH", key, bad is None,
+                  f"{fname}::{meth}: on each of its {len(outs)} carry/borrow paths the stored integer is congruent modulo p to {what} "
+                  f"for all operands in [0, {'2M' if info['lazy'] else 'M'})", loc=fn.loc(),
+                  detail=None if bad is None else {"computed (mod p)": show_lin(bad[0]), "expected": show_lin(want), "on the path with result in": list(bad[1])})
+    # positive control: forgetting the borrow of a - b (b > a) is a different residue
+    li = LinInterp(prog, 2**64 - 2**32 + 1, lambda c: False)
+    li.atom("a", 0, 2**64 - 2**32)
+    li.atom("b", 0, 2**64 - 2**32)
+    cs = li.wrap_cases("sub", IV({"a": 1}, 0, 2**64 - 2**32), IV({"b": 1}, 0, 2**64 - 2**32), "u64")
+    ck.control("ARITH: a wrapping subtraction that can borrow yields two cases with different residues", len(cs) == 2 and li.canon(cs[0][0].lin) != li.canon(cs[1][0].lin))
+    ck.floor("ARITH: operations decided", n, 12)
 
 
 # ---- constants -----------------------------------------------------------------------------------
